@@ -341,3 +341,31 @@ def mime_of(guess, default, mimetype, encoding, encodedmimetype):
     if gtype:
         return mimetype == gtype
     return mimetype == default
+
+
+# ---------------------------------------------------------------------------- C07 / C08
+def cmp3(a, b):
+    return (1 if a > b else 0) - (1 if a < b else 0)
+
+
+def umn_rank(n):
+    """Numbered entries first, then unnumbered ones, then negative ones."""
+    return 0 if n > 0 else (1 if n == 0 else 2)
+
+
+def umn_cmp(name1, num1, name2, num2):
+    """The documented UMN menu order on (title, number) for entries that have a title."""
+    if umn_rank(num1) != umn_rank(num2):
+        return -1 if umn_rank(num1) < umn_rank(num2) else 1
+    if num1 != num2:
+        return -1 if num1 < num2 else 1
+    return cmp3(name1, name2)
+
+
+def num_of(n):
+    return 0 if n is None else n
+
+
+def ignored(ignorepatt, pattern):
+    """The configured ignore pattern is searched in selectorbase/name."""
+    return re.search(ignorepatt, pattern) is not None
